@@ -161,8 +161,8 @@ ACTION_SHAPES = [(), ("ofp_action_output",), ("ofp_action_dl_addr", "ofp_action_
 
 def _rt_packet_out(o):
   p = o.pack()
-  r, o2 = of.ofp_packet_out.unpack_new(p)
-  return (p, len(o), r, o2 == o, o2.pack(), o2.data)
+  r, o2 = of.ofp_packet_out.unpack_new(b"\xaa\xbb\xcc" + p + b"\xdd\xee", 3)
+  return (p, len(o), r - 3, o2 == o, o2.pack(), o2.data)
 
 
 def _mk_packet_out(shape, idx):
@@ -198,8 +198,8 @@ for _i, _s in enumerate(ACTION_SHAPES):
 
 def _rt_flow_mod(o):
   p = o.pack()
-  r, o2 = of.ofp_flow_mod.unpack_new(p)
-  return (p, len(o), r, o2 == o, o2.pack())
+  r, o2 = of.ofp_flow_mod.unpack_new(b"\xaa\xbb\xcc" + p + b"\xdd\xee", 3)
+  return (p, len(o), r - 3, o2 == o, o2.pack())
 
 
 def _mk_flow_mod(shape, idx):
